@@ -4,6 +4,7 @@ package c14
 
 import (
 	"testing"
+	"verif/internal/pbt"
 
 	"github.com/uber/kraken/gen/go/proto/p2p"
 )
@@ -50,7 +51,7 @@ func FuzzWire(f *testing.F) {
 		if c.Frames[0].Raw == nil {
 			c.Frames[0].Raw = []byte{}
 		}
-		if verdict := runWOn(shared, c); verdict.Violation != "" {
+		if verdict := confirmAlloc(func() pbt.Verdict { return runWOn(shared, c) }); verdict.Violation != "" {
 			t.Fatalf("VIOLATION C14/wire: %s", verdict.Violation)
 		}
 	})
